@@ -148,6 +148,51 @@ Definition send (n : netlist) (nt : net) (x : ni_inst) (h : hdr) : trace :=
       end
   end.
 
+(* The same walk WITHOUT the two masks of floo_router: the route as emitted.  C09 speaks about the routes (the union of
+   consecutive-link pairs): a masked turn blocks the flit for ever, it does not remove the dependency, and what the
+   route asks for after it still counts.  Where `send` delivers, the two coincide (FreeWalk.send_free_eq). *)
+Fixpoint walk_free (fuel : nat) (n : netlist) (nt : net) (cur : uref) (h : hdr)
+         (rts sigs : list string) : trace :=
+  let fail why at_ := {| t_out := Failed why at_; t_rts := rev rts; t_sigs := rev sigs |} in
+  match cur with
+  | UNi t => {| t_out := Delivered t h; t_rts := rev rts; t_sigs := rev sigs |}
+  | URt rn inp =>
+      match fuel with
+      | O => fail "out of fuel (longer than the number of routers: a router is revisited)" rn
+      | S fuel' =>
+          match find_rt n rn with
+          | None => fail "unknown router" rn
+          | Some r =>
+              match select n r h with
+              | Err e => fail e rn
+              | Ok (p, h') =>
+                  if p <? 0 then fail "negative port" rn
+                  else
+                    match nth_error (rt_outs nt r) (Z.to_nat p) with
+                    | None => fail "output port out of range" rn
+                    | Some [] => fail "output port not connected" rn
+                    | Some [s] =>
+                        match follow n nt s rn with
+                        | Ok u => walk_free fuel' n nt u h' (rn :: rts) (s :: sigs)
+                        | Err e => fail e rn
+                        end
+                    | Some _ => fail "output port drives several signals" rn
+                    end
+              end
+          end
+      end
+  end.
+
+Definition send_free (n : netlist) (nt : net) (x : ni_inst) (h : hdr) : trace :=
+  match ni_out nt x with
+  | None => {| t_out := Failed "interface has no such channel" (ni_name x); t_rts := []; t_sigs := [] |}
+  | Some s =>
+      match follow n nt s (ni_name x) with
+      | Ok u => walk_free (S (length (n_rts n))) n nt u h [] [s]
+      | Err e => {| t_out := Failed e (ni_name x); t_rts := []; t_sigs := [s] |}
+      end
+  end.
+
 (* ---------------------------------------------------------------- address map *)
 Definition sam_matches (r : sam_rule) (a : Z) : bool := (sr_start r <=? a) && (a <? sr_end r).
 Definition sam_decode (n : netlist) (a : Z) : list sam_rule := filter (fun r => sam_matches r a) (n_sam n).
